@@ -202,6 +202,10 @@ def load_reference(verif_root):
         return json.load(f)['functions']
 
 
+_MUTATORS = {'append', 'extend', 'add', 'update', 'insert', 'pop', 'remove', 'clear', 'sort',
+             'setdefault', 'discard', 'reverse', 'popitem', 'appendleft', 'write'}
+
+
 def propagate_new_locals(fn, ref_names):
     """Introducing a local for an expression (to name it, or to evaluate it
     once) is undone: a local the reference function does not have, bound exactly
@@ -237,6 +241,28 @@ def propagate_new_locals(fn, ref_names):
                    for x in ast.walk(stmt.value)):
                 continue
             if any(isinstance(x, ast.Name) and x.id == nm for x in ast.walk(stmt.value)):
+                continue
+            # every name the value reads keeps one meaning throughout the function
+            # (`orig = env` before `env` is rebound is a different value later on)
+            stable = True
+            for x in ast.walk(stmt.value):
+                if isinstance(x, ast.Name) and x.id in binds:
+                    nb = len(binds[x.id]) + (1 if x.id in params else 0)
+                    if nb > 1:
+                        stable = False
+            if not stable:
+                continue
+            # the local is only read, never updated in place
+            mutated = False
+            for x in ast.walk(fn):
+                if isinstance(x, ast.Attribute) and isinstance(x.value, ast.Name) and \
+                        x.value.id == nm and x.attr in _MUTATORS:
+                    mutated = True
+                elif isinstance(x, ast.Subscript) and isinstance(x.value, ast.Name) and \
+                        x.value.id == nm and isinstance(x.ctx, (ast.Store, ast.Del)):
+                    mutated = True
+            if mutated or isinstance(stmt.value, (ast.List, ast.Dict, ast.Set, ast.ListComp,
+                                                  ast.DictComp, ast.SetComp)):
                 continue
             # not read by a nested function (it would capture the variable)
             nested = False
